@@ -20,7 +20,6 @@ impl<'a> core::ops::Deref for Cow<'a, str> {
 // ---- vocabulary for package types (written from C02/C04/C05: letters, digits, '.', '+', '-'; non-empty) ----
 pub open spec fn type_char(c: char) -> bool { ascii_alnum_c(c) || c == '.' || c == '+' || c == '-' }
 pub open spec fn valid_type(s: Seq<char>) -> bool { s.len() > 0 && forall|i: int| 0 <= i < s.len() ==> type_char(#[trigger] s[i]) }
-pub open spec fn all_ascii_lower(s: Seq<char>) -> bool { forall|i: int| 0 <= i < s.len() ==> ascii_lower_c(#[trigger] s[i]) }
 
 /// What every built-in string-like shape must do in `finish` (C04, C13): validate, then ASCII-lower-case; parts untouched.
 pub open spec fn shape_rel(t0: Seq<char>, p0: PurlParts, t1: Seq<char>, p1: PurlParts, r: Result<(), ParseError>) -> bool {
@@ -29,9 +28,3 @@ pub open spec fn shape_rel(t0: Seq<char>, p0: PurlParts, t1: Seq<char>, p1: Purl
     && (!valid_type(t0) ==> r == Err::<(), ParseError>(ParseError::InvalidPackageType))
 }
 
-pub proof fn lemma_lower_ascii_fixed(s: Seq<char>)
-    requires all_ascii_lower(s)
-    ensures lower_ascii_seq(s) == s
-{
-    assert(lower_ascii_seq(s) =~= s);
-}
